@@ -152,6 +152,37 @@ Theorem C12_no_transplant : forall recover st m k g0 o0 sig orc,
 Proof. exact no_transplant. Qed.
 Print Assumptions C12_no_transplant.
 
+(* ---- the recovery byte V: what is accepted is what the contract's ecrecover rule can verify ---- *)
+
+Theorem C12_tree_vnorm_strict : vnorm_strict eth_vnorm = true /\ vnorm_strict tron_vnorm = true.
+Proof. exact tree_vnorm_strict. Qed.
+Print Assumptions C12_tree_vnorm_strict.
+
+Theorem C12_accepted_v_usable : forall recover,
+  (forall t pre s a, recover t pre s = Some a ->
+     length s = 65%nat /\ (nth_error s 64 = Some 0 \/ nth_error s 64 = Some 1)) ->
+  forall st m k,
+  vnorm_strict (chain_vnorm (st_tron st)) = true ->
+  handle recover st m = Accepted k ->
+  exists sig v, m_sig m = Some sig /\ length sig = 65%nat /\ nth_error sig 64 = Some v /\
+                (0 <= v < 256 -> contract_v v <> None).
+Proof. exact accepted_v_usable. Qed.
+Print Assumptions C12_accepted_v_usable.
+
+Theorem C12_accepted_v_usable_on_tree : forall recover,
+  (forall t pre s a, recover t pre s = Some a ->
+     length s = 65%nat /\ (nth_error s 64 = Some 0 \/ nth_error s 64 = Some 1)) ->
+  forall st m k,
+  handle recover st m = Accepted k ->
+  exists sig v, m_sig m = Some sig /\ length sig = 65%nat /\ nth_error sig 64 = Some v /\
+                (0 <= v < 256 -> contract_v v <> None).
+Proof. exact accepted_v_usable_on_tree. Qed.
+Print Assumptions C12_accepted_v_usable_on_tree.
+
+Theorem C12_vmod_not_strict : vnorm_strict (VMod 27) = false /\ apply_vnorm (VMod 27) 54 = 0 /\ contract_v 54 = None.
+Proof. exact vmod_not_strict. Qed.
+Print Assumptions C12_vmod_not_strict.
+
 (* ---- genesis export + import ---- *)
 
 Theorem C12_import_at_most_one : forall by_ext st, NoDup (map fst (import_conf by_ext st)).
